@@ -749,14 +749,20 @@ if __name__ == "__main__":
     ap.add_argument("--list", action="store_true")
     ap.add_argument("--keep", action="store_true")
     ap.add_argument("--full", action="store_true")
+    ap.add_argument("-j", "--jobs", type=int, default=1)
+    ap.add_argument("--tier", default="all", choices=["all", "quick", "thorough"])
     ap.add_argument("--sanity", action="store_true", help="vacuity self-test: every unit must FAIL only the VERIF_SANITY assertion")
     a = ap.parse_args()
     if a.list:
         for k, v in list_units().items():
             print("%-36s %-8s %-12s %s" % (k, v["tier"], ",".join(v["props"]), v["doc"]))
         sys.exit(0)
-    for n in a.units or list(UNITS):
-        r = run_unit(n, keep=a.keep, sanity=a.sanity)
+    from concurrent.futures import ThreadPoolExecutor
+    names = a.units or [k for k, v in UNITS.items() if a.tier == "all" or v["tier"] == a.tier]
+    with ThreadPoolExecutor(max_workers=a.jobs) as ex:
+        futs = [(n, ex.submit(run_unit, n, keep=a.keep, sanity=a.sanity)) for n in names]
+    for n, fu in futs:
+        r = fu.result()
         if a.full:
             print(json.dumps(r, indent=1))
         else:
